@@ -12,7 +12,10 @@ Import ListNotations.
 From DD Require Import Base.PyStr Base.Value Path.PathModel Diff.Tree Diff.DiffModel Diff.TextView
   Views.ViewsModel Views.ViewsChains Views.ViewsProofs Hash.HashModel DiffIO.DiffIOModel Views.ViewsIO Views.ViewsIOChains
   Views.ViewsRep Delta.DeltaModel Delta.DeltaIO Views.ViewsDelta Views.ViewsDeltaProofs
-  Views.ViewsJsonMap Views.ViewsJsonMapProofs Views.ViewsLevel Views.ViewsLevelProofs.
+  Views.ViewsJsonMap Views.ViewsJsonMapProofs Views.ViewsLevel Views.ViewsLevelProofs
+  Views.ViewsJsonExact Views.ViewsRep2 Views.ViewsRepFlat Views.ViewsRepInput.
+From DD Require Hash.HashProofsC07 Hash.HexHash.
+From DD Require Import Diff.DiffFaithful.
 
 (* ---- tree view vs text view ---------------------------------------- *)
 
@@ -579,3 +582,179 @@ Theorem C10_level_object_is_resolve :
     resolve t (keys_of_opts (path_list s l)) = nside s (cur l).
 Proof. exact line_resolve. Qed.
 Print Assumptions C10_level_object_is_resolve.
+
+(* ==================================================================== *)
+(* round 3, second wave                                                  *)
+(* ==================================================================== *)
+
+(* ---- report_repetition: the EXACT condition for the t2 side ------------- *)
+
+(* which index the code hands to the t2 child relationship, and when t2's item
+   at that index carries the level's hash: a paired added hash a reported below
+   t1-index i gets a's first index when a occurs once in t2, else i - right iff
+   a occurs once or i is one of a's places; a repetition_change level sits at
+   t1's first index - right iff the hash has that place in t2 as well *)
+Theorem C10_io_repetition_t2_link_iff :
+  forall H c (xs ys : list value),
+    (forall a i, In a (h2 H c true ys) ->
+       let js := indexes_of a (h2 H c true ys) 0 in
+       (nth_error (h2 H c true ys) (if Nat.eqb (List.length js) 1 then first_of js else i) = Some a <->
+        (List.length js = 1 \/ In i js))) /\
+    (forall h, let i0 := first_of (indexes_of h (h1 H c true xs) 0) in
+       (nth_error (h2 H c true ys) i0 = Some h <-> In i0 (indexes_of h (h2 H c true ys) 0))).
+Proof. intros. split; [intros a i; apply paired_t2_index_iff|intros h; apply repetition_t2_index_iff]. Qed.
+Print Assumptions C10_io_repetition_t2_link_iff.
+
+(* for a list of scalars against a list of scalars (the shape of both witnesses
+   of the finding), EVERY hasher and pairing oracle, nothing skipped: every
+   level of the run is right on the t2 side IF AND ONLY IF (1) for every pair
+   (added a, removed r) the run uses, a occurs once in t2 or t2 holds a at every
+   index of r in t1, and (2) every common hash of different multiplicity sits in
+   t2 at its first index in t1 *)
+Theorem C10_io_repetition_flat_t2_exact :
+  forall H udiff excl c pairs (xs ys : list atom),
+    (forall e, In e (fst (run_diff_io H udiff noskip excl c true pairs (VList (map VAtom xs)) (VList (map VAtom ys)))) ->
+       t2_right H c ys e) <-> flat_guard H c pairs xs ys.
+Proof. exact flat_rep_t2_iff. Qed.
+Print Assumptions C10_io_repetition_flat_t2_exact.
+
+(* the recorded finding refutes the guard in both ways; a pair with a repeated
+   added item satisfies it *)
+Theorem C10_io_repetition_flat_t2_refuted :
+  let cfg := mkCfg false 33 100 true in
+  ~ flat_guard hexhash cfg (fun _ => [(0, 2)]) [AInt 3; AInt 1; AInt 2] [AInt 4; AInt 4; AInt 3] /\
+  ~ flat_guard hexhash cfg (fun _ => []) [AInt 4; AInt 4; AInt 1] [AInt 1; AInt 4; AInt 2] /\
+  flat_guard hexhash cfg (fun _ => [(0, 0)]) [AInt 1; AInt 5] [AInt 7; AInt 7; AInt 5].
+Proof. cbv zeta. destruct flat_witnesses as [A B]. split; [exact A|split; [exact B|exact flat_guard_example]]. Qed.
+Print Assumptions C10_io_repetition_flat_t2_refuted.
+
+(* the guard sibinj as a condition on the INPUT: for every injective hasher with
+   non-empty separator-free outputs (and, hypothesis-free, for the hasher of the
+   correspondence) it is "items of one list that are ALIKE under the DeepHash
+   options of the run (Hash/HashAlike.v heqb) are structurally equal" *)
+Theorem C10_sibinj_is_input_condition :
+  (forall (H : pystr -> pystr),
+     (forall s, s <> [] -> HashProofsC07.sepfree (H s)) -> (forall s t, H s = H t -> s = t) ->
+     forall c t, tag_safe t = true -> sibinj H c t = sibinj_in (io_opts c true) t) /\
+  (forall c t, tag_safe t = true -> HexHash.val_okb t = true -> sibinj hexhash c t = sibinj_in (io_opts c true) t).
+Proof. split; [exact sibinj_is_input|exact sibinj_is_input_hexhash]. Qed.
+Print Assumptions C10_sibinj_is_input_condition.
+
+(* the delta view of a report_repetition run: every item of
+   iterable_items_added_at_indexes is an added level or comes from the record
+   of a repetition_change level - and then its index IS a place of an item with
+   the level's hash in t2's list (at the true parent path) *)
+Theorem C10_delta_io_repetition_indexes :
+  forall H udiff skip excl c pairs conv t1 t2,
+    wf t1 = true -> wf t2 = true ->
+    let r := run_diff_io H udiff skip excl c true pairs t1 t2 in
+    forall p i v,
+      imap_get (pmap_get (io_added (to_delta_io conv false false t1 t2 (fst r) (snd r))) p) i = Some v ->
+      (exists e, In e (fst r) /\ ekind e = KIterAdd /\ norm (removelast (ep1 e)) = p /\ last_idx (ep1 e) = i /\ v = item_val e) \/
+      (exists e e' rc, In e (fst r) /\ ekind e = KRepetition /\ v = oval (et1 e) /\
+         In rc (snd r) /\ rpath rc = ep1 e /\ norm (removelast (ep1 e)) = p /\ In i (rnew rc) /\
+         rep_rec_ok H c t1 t2 e' rc /\
+         exists q2 v2 ys y x0, ksim q2 (removelast (ep2 e')) /\ resolve t2 q2 = Some v2 /\ seq_items v2 = Some ys /\
+           nth_error ys i = Some y /\ et1 e' = Some x0 /\ hv H c true y = hv H c true x0).
+Proof. exact run_rep_delta_added. Qed.
+Print Assumptions C10_delta_io_repetition_indexes.
+
+(* ---- exactly when to_json() raises ---------------------------------------- *)
+
+(* json.dumps(v, default=json_convertor_default()) raises IF AND ONLY IF v
+   contains - as itself, a list / tuple item, a dict value or a set member - a
+   frozenset (no row of the convertor table), a bytes object that is not valid
+   UTF-8 (the bytes row raises) or a dict with a bytes key (refused before any
+   row); over the table: a frozenset is the only object without a row *)
+Theorem C10_json_raises_exact :
+  (forall v, to_jsonable v = None <-> json_ok v = false) /\
+  (forall v, json_ok v = false <-> exists w, In w (subvalues v) /\ unencodable w) /\
+  (forall iso h, lookup iso builtin h = None <-> exists xs, h = HFrozen xs).
+Proof. split; [exact to_jsonable_none_iff|split; [exact json_ok_false_kinds|exact builtin_norow_iff]]. Qed.
+Print Assumptions C10_json_raises_exact.
+
+(* the document: to_json() raises iff an entry that survives in the dict of its
+   category (a later entry with the same path replaces an earlier one) shows
+   such a value; list categories never raise *)
+Theorem C10_json_document_raises_exact :
+  (forall t, entry_json t = None <-> exists x, In x (tvals t) /\ json_ok x = false) /\
+  (forall verbose ts, json_of_text verbose ts = None <->
+     exists c p, list_cat verbose c = false /\ In (p, None) (survivors c ts)).
+Proof. split; [exact entry_json_none_iff|exact json_of_text_none_iff]. Qed.
+Print Assumptions C10_json_document_raises_exact.
+
+(* ---- pretty(): None and repetition_change --------------------------------- *)
+
+(* the statements of a type change from / to None (type name NoneType, value
+   text None) and of a repetition_change level, as printed (replayed on the
+   implementation by the harness) *)
+Theorem C10_pretty_none_and_repetition_examples :
+  pretty_of 1 (mkEntry KType [PKey (AStr (s2p "a"))] [PKey (AStr (s2p "a"))] (Some (VAtom ANone)) (Some (VAtom (AInt 1))) None)
+    = s2p "Type of root['a'] changed from NoneType to int and value changed from None to 1." /\
+  pretty_of 1 (mkEntry KType [PIdx 0] [PIdx 0] (Some (VAtom (AInt 1))) (Some (VAtom ANone)) None)
+    = s2p "Type of root[0] changed from int to NoneType and value changed from 1 to None." /\
+  (exists e, In e (w_io_run (fun _ => []) (ints [4; 4; 1]%Z) (ints [1; 4; 2]%Z)) /\ ekind e = KRepetition /\
+             pretty_of 1 e = s2p "Repetition change for item root[0].").
+Proof. exact pretty_none_and_repetition. Qed.
+Print Assumptions C10_pretty_none_and_repetition_examples.
+
+(* ------------------------------------------------------------------ *)
+(** EXTENSION beyond the property's stated domain: results holding INSTANCES OF CLASSES
+    (Obj/ObjValue.v [ovalue]; [orun] Obj/ObjModel.v; the text view [otext_view] Obj/ObjText.v with
+    attribute_added / attribute_removed; pretty() [opretty] Obj/ObjViews.v with the "Attribute ... added." /
+    "... removed." statements, class names as type names and the repr  Cls(attr=value, ...)  of the harness
+    classes / namedtuples / dataclasses; tied to DeepDiff on real class instances by harness/objcommon.py
+    stream_c10: pretty() statements, to_dict(view_override='text') of the tree view, the text view).
+    to_json() of a result that holds an instance raises TypeError unless default_mapping is given: outside. *)
+From DD Require Obj.ObjValue Obj.ObjModel Obj.ObjText Obj.ObjViews Obj.ObjViewsProofs Obj.ObjExamples.
+
+(* the text view has one entry per level that the verbose level shows, under the same category (attribute_added and
+   attribute_removed included) and the same path text (with .attr elements), in the same order *)
+Theorem C10_objects_text_same_pairs :
+  forall verbose (es : list Obj.ObjModel.oentry),
+    map Obj.ObjViews.otkey (Obj.ObjText.otext_view verbose es) =
+    map Obj.ObjViews.oekey (filter (Obj.ObjViews.ovisible verbose) es).
+Proof. exact Obj.ObjViewsProofs.otext_same_pairs. Qed.
+Print Assumptions C10_objects_text_same_pairs.
+
+(* an attribute_added / attribute_removed level (as a dictionary item level) is always shown; its text entry carries
+   the level's t2 / t1 object exactly from verbose_level 2 *)
+Theorem C10_objects_text_attribute_values :
+  forall verbose (e : Obj.ObjModel.oentry),
+    (Obj.ObjModel.oekind e = Obj.ObjModel.OKAttrAdd \/ Obj.ObjModel.oekind e = Obj.ObjModel.OK KDictAdd ->
+       Obj.ObjText.otext_of verbose e =
+       [Obj.ObjText.OTItem (Obj.ObjModel.oekind e) (Obj.ObjText.orender (Obj.ObjModel.oep1 e))
+                           (if Nat.leb 2 verbose then Obj.ObjModel.oet2 e else None)]) /\
+    (Obj.ObjModel.oekind e = Obj.ObjModel.OKAttrRem \/ Obj.ObjModel.oekind e = Obj.ObjModel.OK KDictRem ->
+       Obj.ObjText.otext_of verbose e =
+       [Obj.ObjText.OTItem (Obj.ObjModel.oekind e) (Obj.ObjText.orender (Obj.ObjModel.oep1 e))
+                           (if Nat.leb 2 verbose then Obj.ObjModel.oet1 e else None)]).
+Proof. exact Obj.ObjViewsProofs.otext_item_values. Qed.
+Print Assumptions C10_objects_text_attribute_values.
+
+(* pretty(): one statement per level of the tree; unless the level is an iterable_item_moved it is non-empty and names
+   the path text under which the text view files the level *)
+Theorem C10_objects_pretty_one_per_change :
+  forall verbose (es : list Obj.ObjModel.oentry),
+    List.length (Obj.ObjViews.opretty verbose es) = List.length es /\
+    Forall2 (fun e s => s = Obj.ObjViews.opretty_of verbose e /\
+                        (Obj.ObjModel.oekind e <> Obj.ObjModel.OK KIterMoved -> s <> []) /\
+                        (Obj.ObjModel.oekind e <> Obj.ObjModel.OK KIterMoved ->
+                         contains_sub (Obj.ObjText.orender (Obj.ObjModel.oep1 e)) s = true))
+            es (Obj.ObjViews.opretty verbose es).
+Proof. intros. split; [apply Obj.ObjViewsProofs.opretty_length|apply Obj.ObjViewsProofs.opretty_per_change]. Qed.
+Print Assumptions C10_objects_pretty_one_per_change.
+
+(* the views of one run: the pair of Obj.ObjExamples (9 levels of 7 kinds) *)
+Example C10_objects_views_of_one_run :
+  map Obj.ObjViews.otkey (Obj.ObjText.otext_view 2 (fst Obj.ObjExamples.ox_run)) = map Obj.ObjViews.oekey (fst Obj.ObjExamples.ox_run) /\
+  List.length (Obj.ObjText.otext_view 2 (fst Obj.ObjExamples.ox_run)) = 9 /\
+  List.length (Obj.ObjText.otext_view 0 (fst Obj.ObjExamples.ox_run)) = 7 /\
+  In (s2p "Attribute root['o'].w (""new"") added.") (Obj.ObjViews.opretty 2 (fst Obj.ObjExamples.ox_run)) /\
+  In (s2p "Attribute root['o'].z removed.") (Obj.ObjViews.opretty 1 (fst Obj.ObjExamples.ox_run)) /\
+  In (s2p "Type of root['q'] changed from PA to PB and value changed from PA(a=1) to PB(a=1).") (Obj.ObjViews.opretty 1 (fst Obj.ObjExamples.ox_run)) /\
+  In (s2p "Item root['l'][1] (PB()) removed from iterable.") (Obj.ObjViews.opretty 2 (fst Obj.ObjExamples.ox_run)) /\
+  In (Obj.ObjText.OTItem Obj.ObjModel.OKAttrAdd (s2p "root['l'][0].k") (Some (Obj.ObjValue.OAtom (AInt 5)))) (Obj.ObjText.otext_view 2 (fst Obj.ObjExamples.ox_run)) /\
+  In (Obj.ObjText.OTItem Obj.ObjModel.OKAttrAdd (s2p "root['l'][0].k") None) (Obj.ObjText.otext_view 1 (fst Obj.ObjExamples.ox_run)).
+Proof. exact Obj.ObjViewsProofs.ox_views. Qed.
+Print Assumptions C10_objects_views_of_one_run.
